@@ -75,6 +75,10 @@ Lemma L_ok_indent l n : L_ok l -> L_ok (line_indent l n).  Proof. exact (fun H =
 Lemma L_ok_set_row l r : L_ok l -> L_ok (line_set_row l r).  Proof. exact (fun H => H). Qed.
 Lemma L_ok_clear l : L_ok (line_clear l).
 Proof. unfold line_clear. apply L_ok_set_cursor. repeat constructor. Qed.
+Lemma L_ok_delete_to_end l : L_ok l -> L_ok (line_delete_to_end l).
+Proof.
+  intros H. unfold L_ok, line_delete_to_end; cbn [l_texts]. apply Forall_upd_nth; [intros t Ht; exact Ht|]. now apply Forall_firstn.
+Qed.
 Lemma L_ok_copy_fold ts : forall acc, L_ok acc ->
   L_ok (fold_left (fun nl t => line_add_obj nl (text_set_sty (text_of (t_text t)) (t_sty t))) ts acc).
 Proof.
@@ -151,7 +155,10 @@ Proof. intros H. unfold new_caption_text. apply P_ok_upd_cur_line; [|exact H]. i
 Lemma P_ok_update_line_cursor p : P_ok p -> P_ok (update_line_cursor p).
 Proof.
   intros H. unfold update_line_cursor. apply P_ok_upd_cur_line; [intros; now apply L_ok_set_cursor|].
-  destruct (_ <? 0); [|exact H]. apply P_ok_upd_cur_line; [intros; now apply L_ok_indent|exact H].
+  set (p1 := if _ <? 0 then _ else p).
+  assert (H1 : P_ok p1). { unfold p1. destruct (_ <? 0); [|exact H]. apply P_ok_upd_cur_line; [intros; now apply L_ok_indent|exact H]. }
+  clearbody p1. destruct (0 <? _); [|exact H1].
+  apply P_ok_upd_cur_line; [|exact H1]. intros l Hl. apply L_ok_add_obj; [exact Hl|apply T_ok_of].
 Qed.
 Lemma P_ok_indent_cursor p n : P_ok p -> P_ok (indent_cursor p n).
 Proof.
@@ -379,7 +386,7 @@ Proof.
         + apply C_ok_upd_act; [intros; now apply P_ok_append_text|now apply C_ok_paint_on].
         + apply C_ok_upd_act; [|exact H1]. intros a Ha. now apply P_ok_set_begin_cur, P_ok_append_text, P_ok_new_caption_text.
       - destruct (ends_with_space word).
-        + assert (H' : C_ok (upd_act c1 (fun a => append_text a word))) by (apply C_ok_upd_act; [intros; now apply P_ok_append_text|exact H1]).
+        + assert (H' : C_ok (upd_act c1 (fun a => style_cur_text c1 (append_text a word)))) by (apply C_ok_upd_act; [intros; now apply P_ok_style_cur_text, P_ok_append_text|exact H1]).
           destruct (negb _); [now apply C_ok_paint_on|].
           apply C_ok_upd_act; [|exact H']. intros a Ha. now apply P_ok_set_begin_cur, P_ok_new_caption_text.
         + apply C_ok_upd_act; [intros; now apply P_ok_append_text|exact H1]. }
@@ -412,7 +419,7 @@ Proof.
   destruct (code =? kCR).
   { destruct (c_act c) as [a|] eqn:E; [|exact H].
     destruct (negb (p_style a =? sRollUp)); [now apply C_ok_push_active|].
-    destruct (is_nil (t_text (cur_text a))).
+    destruct (para_is_empty a).
     - apply C_ok_upd_act; [|apply C_ok_new_active; [exact Ht|now apply C_ok_count]].
       intros x Hx. apply P_ok_set_cursor_at. apply P_ok_set_lines_list; [constructor|exact Hx].
     - set (c1 := upd_act _ roll_up).
@@ -427,6 +434,9 @@ Proof.
       clearbody c1.
       apply C_ok_upd_act; [|now apply C_ok_new_active].
       intros x Hx. apply P_ok_set_cursor_at. now apply P_ok_set_lines_list. }
+  destruct (code =? kDER).
+  { destruct (cap_to_process c); [|exact H]. apply C_ok_upd_cap; [|exact H]. intros a Ha.
+    apply P_ok_upd_cur_line; [intros; now apply L_ok_delete_to_end|exact Ha]. }
   destruct (code =? kBS); [now apply C_ok_backspace|exact H].
 Qed.
 
@@ -440,7 +450,7 @@ Proof.
   assert (E1 : c_tc c1 = tc_next (c_tc c)) by reflexivity. clearbody c1.
   destruct (value w =? 0); [exact H1|].
   destruct (byte1 w <? 32).
-  - destruct (negb (d_chan (decode w) =? 1)); [now apply C_ok_chan|].
+  - destruct (negb (d_chan (decode w) =? 1)); [now apply C_ok_prev, C_ok_chan|].
     apply C_ok_prev.
     set (c2 := with_chan c1 1). assert (H2 : C_ok c2) by exact H1.
     assert (E2 : c_tc c2 = tc_next (c_tc c)) by exact E1. clearbody c2.
@@ -535,7 +545,8 @@ Proof.
   destruct (_ || _ || _); [destruct (cap_to_process c); [apply tc_upd_cap|reflexivity]|].
   destruct (code =? kCR).
   { destruct (c_act c) as [a|] eqn:E; [|reflexivity]. destruct (negb _); [apply tc_push_active|].
-    destruct (is_nil _); rewrite tc_upd_act, tc_new_active; [reflexivity|]. rewrite tc_upd_act. apply tc_push_active. }
+    destruct (para_is_empty _); rewrite tc_upd_act, tc_new_active; [reflexivity|]. rewrite tc_upd_act. apply tc_push_active. }
+  destruct (code =? kDER); [destruct (cap_to_process c); [apply tc_upd_cap|reflexivity]|].
   destruct (code =? kBS); [apply tc_backspace|reflexivity].
 Qed.
 (* is the word dropped as the second copy of a doubled code? *)
